@@ -100,13 +100,19 @@ def gen_plan(rng, tier: str, idx: int) -> dict:
             "scale_param": rng.choice(["log_sigma", "transformed_sigma"]), "z_prior": rng.choice(["uniform", "normal"]),
             "chains": rng.randint(1, 3), "seed": rng.randrange(2**31), "epochs": [[0, 1, 1], [rng.choice([1, 3]), 10, 1], [4, 10, 1]],
             "step": {"beta": rng.choice([0.05, 0.2, 0.6]), "scale": rng.choice([0.1, 0.5, 1.5]), "z": rng.choice([0.5, 2.0, 4.0])},
-            "gibbs_pair": rng.random() < 0.5, "pair_order": rng.choice(["xy", "yx"])}
+            "gibbs_pair": rng.random() < 0.5, "pair_order": rng.choice(["xy", "yx"]),
+            # user-assigned kernel identifiers whose alphabetical order differs from the configured order
+            "ident_seed": rng.randrange(10**6) if rng.random() < 0.5 else None}
 
 
 def shrink_candidates(plan):
     if plan["gibbs_pair"]:
         p = copy.deepcopy(plan)
         p["gibbs_pair"] = False
+        yield p
+    if plan.get("ident_seed") is not None:
+        p = copy.deepcopy(plan)
+        p["ident_seed"] = None
         yield p
     if plan["chains"] > 1:
         p = copy.deepcopy(plan)
@@ -290,8 +296,15 @@ def execute(plan: dict) -> dict:
         seq.append((b, ker))
         seq.append(("obs", ObserverKernel(watch)))
     kernels = [k for _, k in seq]
+    if plan.get("ident_seed") is not None:
+        import random as _random
+
+        names = [f"{w}{j}" for j, w in enumerate(_random.Random(plan["ident_seed"]).sample(["zeta", "alpha", "mid", "omega", "beta", "kappa", "eta", "nu", "xi", "tau", "rho", "psi", "chi"], len(kernels)))]
+        names = [n.rstrip("0123456789") + "_k" for n in names]
+    else:
+        names = [f"kernel_{i:02d}" for i in range(len(kernels))]
     for i, k in enumerate(kernels):
-        k.identifier = f"kernel_{i:02d}"
+        k.identifier = names[i]
         k.set_model(iface)
     C = plan["chains"]
     states = jax.tree_util.tree_map(lambda x: jnp.stack([jnp.asarray(x)] * C), state0)
@@ -307,9 +320,9 @@ def execute(plan: dict) -> dict:
     infos = res.transition_infos.combine_all().unwrap()
     samples = {k: np.asarray(v) for k, v in res.get_samples().items()}
     T = sum(e[1] for e in plan["epochs"][1:])
-    obs_ids = [f"kernel_{i:02d}" for i, (b, _) in enumerate(seq) if b == "obs"]
+    obs_ids = [names[i] for i, (b, _) in enumerate(seq) if b == "obs"]
     seen = [{k: np.asarray(v) for k, v in infos[o].seen.items()} for o in obs_ids]  # each (C, T, ...)
-    real_ids = [(b, f"kernel_{i:02d}") for i, (b, _) in enumerate(seq) if b != "obs"]
+    real_ids = [(b, names[i]) for i, (b, _) in enumerate(seq) if b != "obs"]
 
     def eq(a, b):
         return a.tobytes() == b.tobytes()
